@@ -60,6 +60,27 @@ def wordT (tr : Tr) (v : RawVec) (index : Nat) : Outcome Word :=
     let w ← getW v.data index
     if index ≥ v.len / 64 then return (~~~ w) &&& lowSet (v.len % 64) else return ~~~ w
 
+/-- `T::word` — the SAFE variant of the public `Transformation` trait: `Identity` reads through the bounds-checked
+`RawVector::word`; `Complement` takes the checked read (and masks) from the last word index on and the unchecked read
+only strictly below it, where the index is in range by construction (`index < len / 64 ≤ words`). -/
+def wordSafeT (tr : Tr) (v : RawVec) (index : Nat) : Outcome Word :=
+  match tr with
+  | .ident => getC v.data index
+  | .compl =>
+    if index ≥ v.len / 64 then do
+      let w ← getC v.data index
+      return (~~~ w) &&& lowSet (v.len % 64)
+    else do
+      let w ← getW v.data index
+      return ~~~ w
+
+/-- the safe entry points of the support structures (`RankSupport::rank`, `SelectSupport::select`) perform the same
+computation as the unchecked ones through bounds-checked accessors: an out-of-range read is a panic, never `oob` -/
+def safely {α} (x : Outcome α) : Outcome α :=
+  match x with
+  | .fault .oob => .fault (.panic .index)
+  | y => y
+
 /-- bits of the transformed vector -/
 def bitsT (tr : Tr) (B : List Bool) : List Bool :=
   match tr with | .ident => B | .compl => B.map not
